@@ -522,6 +522,11 @@ func (r *run) sectionMapLin() error {
 			}
 			r.out.HistoriesChecked++
 			r.out.HistoryOps += len(j.h)
+			for _, rec := range j.h {
+				if rec.Ret != rec.Call+1 { // another operation was called or returned inside this one
+					r.out.OverlappedOps++
+				}
+			}
 			if j.res.porc != linUnknown {
 				r.out.HistoriesPorcupine++
 			}
